@@ -698,7 +698,9 @@ impl BytesMut {
 
                 // Compare the condition in the `kind == KIND_VEC` case above
                 // for more details.
-                if v_capacity >= new_cap + offset {
+                // `offset <= v_capacity` always holds, whereas `new_cap + offset` can
+                // wrap around for huge requests and make this test pass spuriously.
+                if v_capacity - offset >= new_cap {
                     self.cap = new_cap;
                     // no copy is necessary
                 } else if v_capacity >= new_cap && offset >= len {
